@@ -21,7 +21,7 @@ vars == <<st, in, out>>
 \* Candidate ClientID labels.  L63 / L64 stand for labels of 63 and 64
 \* characters, EMPTY for the empty label (".example.com").
 IdLabels    == {"cli", "CLi-9", "a_b", "-ab", "ab-", "L63", "L64", "EMPTY", "9x"}
-MCValid     == {"cli", "CLi-9", "L63", "9x", "other", "dns-query"}
+MCValid     == {"cli", "CLi-9", "L63", "9x", "other", "dns-query", "dns-querycli", "xdns-query"}
 MCLower     == [x \in {"CLi-9"} |-> "cli-9"]
 
 INSTANCE ClientIDCore WITH ValidLabels <- MCValid, LowerMap <- MCLower
@@ -40,8 +40,9 @@ CliNames(h) ==
             <<"cli", "other", "com">>, <<"com">>, <<"cli", "com">>,
             <<"cli", "example", "com">>, <<"cli", "example", "org">>}
 
-Segs == {"dns-query", "cli", "CLi-9", "a_b", "L64", "..", ".", "", "other"}
-SmallSegs == {"dns-query", "cli", "..", "", "a_b"}
+\* "dns-querycli" / "xdns-query": look-alikes of the resolver segment (prefix / suffix).
+Segs == {"dns-query", "cli", "CLi-9", "a_b", "L64", "..", ".", "", "other", "dns-querycli", "xdns-query"}
+SmallSegs == {"dns-query", "cli", "..", "", "dns-querycli"}
 
 \* --------------------------------------------------------------- behaviour
 NoIn == [proto |-> "none", host |-> <<>>, strict |-> FALSE, cli |-> <<>>, via |-> "none",
